@@ -3,7 +3,7 @@ import numpy as np
 
 from .. import graphs as G
 from .. import oracles as O
-from .common import call, close, dtype_variants_agree
+from .common import call, close, dtype_variants_agree, layout_variants_agree
 
 PROP = 'C08'
 ANCHORS = ['betweenness_bin', 'betweenness_wei', 'edge_betweenness_bin', 'edge_betweenness_wei']
@@ -98,6 +98,9 @@ def run(case, bct, REC):
             e, b2 = res
             REC.check(PROP, 'edge_betweenness_wei', 'edge_values', close(e, EBC, rtol=1e-9, atol=1e-9), dict(det, got=e, expected=EBC))
             REC.check(PROP, 'edge_betweenness_wei', 'node_values', close(b2, BC, rtol=1e-9, atol=1e-9), dict(det, got=b2, expected=BC))
+        if 3 <= n <= 9 and sc in ('bin', 'int'):
+            for fname in ('betweenness_wei', 'edge_betweenness_wei', 'betweenness_bin', 'edge_betweenness_bin'):
+                layout_variants_agree(REC, PROP, fname, getattr(bct, fname), L)
         if sc == 'bin' and n <= 30:
             for fname in ('betweenness_bin', 'edge_betweenness_bin'):
                 dtype_variants_agree(REC, PROP, fname, getattr(bct, fname), L)
